@@ -26,6 +26,9 @@ Definition s_resize (l : list Z) (n c : Z) : list Z :=
 (* substr(pos, n): requires pos <= size() *)
 Definition s_substr (l : list Z) (pos n : Z) : option (list Z) :=
   if pos <=? slen l then Some (take (Z.min n (slen l - pos)) (drop pos l)) else None.
+(* replace(pos, n, x): requires pos <= size(); replaces min(n, size() - pos) characters by x *)
+Definition s_replace (l : list Z) (pos count : Z) (x : list Z) : option (list Z) :=
+  if pos <=? slen l then Some (take pos l ++ x ++ drop (pos + Z.min count (slen l - pos)) l) else None.
 (* first n characters of a character array of |src| characters: requires n <= |src| *)
 Definition s_prefix (src : list Z) (n : Z) : option (list Z) :=
   if n <=? slen src then Some (take n src) else None.
@@ -46,7 +49,27 @@ Inductive sop :=
 | SAssignPtr (src : list Z) (count : Z)
 | SAssignFill (count ch : Z)
 | SSubstr (pos count : Z)
-| SSwapWith (src : list Z).
+| SSwapWith (src : list Z)
+| SAppendCstr (a : list Z)
+| SAppendStr (src : list Z)
+| SAppendStrSub (src : list Z) (pos count : Z)
+| SAppendViewSub (src : list Z) (pos count : Z)
+| SAssignCstr (a : list Z)
+| SAssignStrSub (src : list Z) (pos count : Z)
+| SAssignViewSub (src : list Z) (pos count : Z)
+| SInsertCstr (index : Z) (a : list Z)
+| SInsertStrSub (index : Z) (src : list Z) (indexStr count : Z)
+| SErasePos (pos : Z)
+| SFreeErase (value : Z)
+| SFreeEraseIf (p : Z -> bool).
+
+(* the C string held by a null-terminated array: the characters before the first null character;
+   [None] when the array holds no null character (the pointer is not a C string) *)
+Fixpoint s_cstr (a : list Z) : option (list Z) :=
+  match a with
+  | [] => None
+  | x :: r => if x =? 0 then Some [] else match s_cstr r with Some l => Some (x :: l) | None => None end
+  end.
 
 Definition omap {A B} (f : A -> B) (o : option A) : option B :=
   match o with Some a => Some (f a) | None => None end.
@@ -70,6 +93,35 @@ Definition spec_step (l : list Z) (o : sop) : option (list Z) :=
   | SAssignFill count ch => Some (rep count ch)
   | SSubstr pos count => s_substr l pos count
   | SSwapWith src => Some src
+  | SAppendCstr a => omap (fun x => l ++ x) (s_cstr a)
+  | SAppendStr src => Some (l ++ src)
+  | SAppendStrSub src pos count => omap (fun x => l ++ x) (s_substr src pos count)
+  | SAppendViewSub src pos count => omap (fun x => l ++ x) (s_substr src pos count)
+  | SAssignCstr a => s_cstr a
+  | SAssignStrSub src pos count => s_substr src pos count
+  | SAssignViewSub src pos count => s_substr src pos count
+  | SInsertCstr index a => obind2 (s_cstr a) (s_insert l index)
+  | SInsertStrSub index src indexStr count => obind2 (s_substr src indexStr count) (s_insert l index)
+  | SErasePos pos => if pos <? slen l then s_erase_range l pos 1 else None
+  | SFreeErase value => Some (filter (fun x => negb (x =? value)) l)        (* std::erase(c, value) *)
+  | SFreeEraseIf p => Some (filter (fun x => negb (p x)) l)                  (* std::erase_if(c, pred) *)
+  end.
+
+(* std::erase / std::erase_if return the number of erased characters *)
+Definition spec_returned_count (l : list Z) (o : sop) : option Z :=
+  match o with
+  | SFreeErase value => Some (slen l - slen (filter (fun x => negb (x =? value)) l))
+  | SFreeEraseIf p => Some (slen l - slen (filter (fun x => negb (p x)) l))
+  | _ => None
+  end.
+
+(* the iterator returned by erase(first, last) / erase(position), as an offset from begin():
+   it points to the character that followed the erased ones *)
+Definition spec_returned_pos (o : sop) : option Z :=
+  match o with
+  | SEraseRange start _ => Some start
+  | SErasePos pos => Some pos
+  | _ => None
   end.
 
 Fixpoint spec_run (l : list Z) (ops : list sop) : option (list Z) :=
